@@ -6,10 +6,10 @@ spin is -1. The added polynomial F = (PCSO after) - (PCSO before) is a function 
 """
 import itertools
 
-from .common import clause, LABELS, INT_COEFS, gen_models, all_small_models
+from .common import clause, Skip, LABELS, INT_COEFS, gen_models, all_small_models
 from .c02 import (RELS, LAMS, QUICK_BITS, THOROUGH_BITS, run_penalty_case, true_range, case_bits, both_outcomes,
                   _to_bool, _special_polys, _gen_valid, run_valid_case, _nontrivial_valid, _gen_sequence,
-                  run_sequence_case, anc_estimate, sum_enclosure)
+                  run_sequence_case, anc_estimate, sum_enclosure, with_copies, with_argtypes)
 
 
 def to_spin(terms):
@@ -199,3 +199,23 @@ def check_sequence(case):
     all ancilla spins is 0 when all constraints hold, and at least the sum of lam over violated constraints always).
     Non-trivial: at least two constraints need ancillas."""
     return run_sequence_case(case, "PCSO", spin=True, bookkeeping=True)
+
+
+
+@clause("C03.ancillas_across_copies", "C03", gen=with_copies(_gen_seq_spin), nontrivial=_nontrivial_seq)
+def check_sequence_copies(case):
+    """C03.ancilla_bookkeeping where the PCSO is replaced by a copy of itself (copy(), PCSO(model), model + 0,
+    1 * model) before every constraint but the first: the copy denotes the same function, has the same type and
+    reports its ancillas, and constraints added to it get ancilla spins that are new for it. Non-trivial: at least
+    two constraints need ancillas."""
+    return run_sequence_case(case, "PCSO", spin=True, bookkeeping=True)
+
+
+@clause("C03.is_solution_valid_after_argument_edits", "C03", gen=with_argtypes(_gen_valid_spin, ["PUSO", "PCSO", "QUSO"]),
+        nontrivial=lambda c: _nontrivial_valid(c, spin=True))
+def check_valid_argedits(case):
+    """C03.is_solution_valid where every constraint polynomial is handed over as a PUSO / PCSO / QUSO object that the
+    caller edits in place after the call: is_solution_valid still decides the constraints as they were added."""
+    if case["argtype"] == "QUSO" and any(len(k) > 2 for _, P, _, _ in case["cons"] for k in P):
+        return Skip("degree > 2 polynomial cannot be a QUSO")
+    return run_valid_case(case, "PCSO", spin=True)
